@@ -6,23 +6,26 @@
 EXTENDS Integers, Sequences, FiniteSets, TLC, Json
 
 Tr == ndJsonDeserialize("trace.ndjson")
-VARIABLES l, FailNum, SuccNum, avail, consec, active, okrun, released, afterRel, dead, bad
-tvars == <<l, FailNum, SuccNum, avail, consec, active, okrun, released, afterRel, dead, bad>>
+VARIABLES l, FailNum, SuccNum, SuccOld, grace, avail, consec, active, okrun, released, afterRel, dead, bad
+\* SuccOld / grace: the health-check configuration can be reloaded while a checker runs; the checker reads it at
+\* the top of every iteration, so the iteration whose probe is the first after the change may still use the old value
+tvars == <<l, FailNum, SuccNum, SuccOld, grace, avail, consec, active, okrun, released, afterRel, dead, bad>>
 Ev == Tr[l]
 Mark(why) == bad' = bad \cup {[cid |-> Ev.cid, l |-> l, why |-> why]} /\ dead' = TRUE
 Keep == UNCHANGED <<bad, dead>>
 Get(f, g) == IF g \in DOMAIN f THEN f[g] ELSE 0
 Put(f, g, v) == [x \in DOMAIN f \cup {g} |-> IF x = g THEN v ELSE f[x]]
 
-TInit == /\ l = 1 /\ FailNum = 1 /\ SuccNum = 1 /\ avail = TRUE /\ consec = 0 /\ active = {}
+TInit == /\ l = 1 /\ FailNum = 1 /\ SuccNum = 1 /\ SuccOld = 1 /\ grace = 0 /\ avail = TRUE /\ consec = 0 /\ active = {}
          /\ okrun = <<>> /\ released = FALSE /\ afterRel = <<>> /\ dead = FALSE /\ bad = {}
 
 TNew == /\ Ev.ev = "new"
-        /\ FailNum' = Ev.failNum /\ SuccNum' = Ev.succNum
+        /\ FailNum' = Ev.failNum /\ SuccNum' = Ev.succNum /\ SuccOld' = Ev.succNum /\ grace' = 0
         /\ avail' = TRUE /\ consec' = 0 /\ active' = {} /\ okrun' = <<>> /\ released' = FALSE
         /\ afterRel' = <<>> /\ dead' = FALSE /\ UNCHANGED bad
 
-Same == UNCHANGED <<FailNum, SuccNum>>
+Same == UNCHANGED <<FailNum, SuccNum, SuccOld>> /\ grace' = (IF Ev.ev = "probe" /\ grace > 0 THEN grace - 1 ELSE grace)
+NeedK == IF grace > 0 /\ SuccOld < SuccNum THEN SuccOld ELSE SuccNum
 
 TAddFail == /\ Ev.ev = "add_fail" /\ consec' = consec + 1 /\ Keep
             /\ UNCHANGED <<avail, active, okrun, released, afterRel>>
@@ -41,7 +44,7 @@ TSetAvail == /\ Ev.ev = "set_avail"
              /\ IF Ev.avail
                   THEN /\ consec' = 0 /\ active' = active \ {Ev.g}
                        /\ IF ~avail /\ ~(Ev.g \in active) THEN Mark("RestoredByNonChecker")
-                          ELSE IF ~avail /\ Get(okrun, Ev.g) < SuccNum THEN Mark("UpBeforeKSuccesses")
+                          ELSE IF ~avail /\ Get(okrun, Ev.g) < NeedK THEN Mark("UpBeforeKSuccesses")
                           ELSE Keep
                   ELSE /\ UNCHANGED <<consec, active>>
                        /\ IF avail /\ consec < FailNum THEN Mark("DownBelowThreshold") ELSE Keep
@@ -72,6 +75,11 @@ TEnd == /\ Ev.ev = "end"
            ELSE IF Ev.panic THEN Mark("panic") ELSE Keep
         /\ UNCHANGED <<avail, consec, active, okrun, released, afterRel>>
 \* Layer-M events carry no Layer-P obligation
+\* health-check configuration reloaded (only the success threshold changes here)
+TConf == /\ Ev.ev = "conf"
+         /\ SuccOld' = (IF grace > 0 /\ SuccOld < SuccNum THEN SuccOld ELSE SuccNum)   \* smallest value still possibly in use
+         /\ SuccNum' = Ev.succNum /\ grace' = 2 /\ Keep
+         /\ UNCHANGED <<FailNum, avail, consec, active, okrun, released, afterRel>>
 TOther == /\ Ev.ev \in {"add_succ", "reset_succ", "check_avail", "inc_conn", "dec_conn"} /\ Keep
           /\ UNCHANGED <<avail, consec, active, okrun, released, afterRel>>
 TSkip == /\ dead /\ Ev.ev # "new" /\ Keep
@@ -79,9 +87,11 @@ TSkip == /\ dead /\ Ev.ev # "new" /\ Keep
 
 TNext == /\ l <= Len(Tr) /\ l' = l + 1
          /\ \/ TNew
-            \/ Same /\ ~dead /\ (TAddFail \/ TResetFail \/ TUpdate \/ TSetAvail \/ TStart \/ TProbe
+            \/ ~dead /\ TConf
+            \/ dead /\ Ev.ev = "conf" /\ Keep /\ UNCHANGED <<FailNum, SuccNum, SuccOld, grace, avail, consec, active, okrun, released, afterRel>>
+            \/ Ev.ev # "conf" /\ Same /\ ~dead /\ (TAddFail \/ TResetFail \/ TUpdate \/ TSetAvail \/ TStart \/ TProbe
                                  \/ TExit \/ TClose \/ TEnd \/ TOther)
-            \/ Same /\ TSkip
+            \/ Ev.ev # "conf" /\ Same /\ TSkip
 Report == (l = Len(Tr) + 1) => PrintT(ToJson([done |-> TRUE, consumed |-> l - 1, bad |-> bad]))
 Accepted == TLCGet("stats").diameter - 1 = Len(Tr)
 ======================================================================
